@@ -3,6 +3,7 @@ from __future__ import annotations
 
 import copy
 import itertools
+import warnings
 
 import numpy as np
 
@@ -36,6 +37,21 @@ def parse_obs(s):
 
 def lst(v, conv=int):
     return [] if v == "-" else [conv(x) for x in v.split(",")]
+
+
+ROT_TOL = 1e-15   # Rotation.__getitem__ re-normalises unit quaternions: a few ulp(1) per component
+
+
+def same_rot(a, b):
+    return a.shape == b.shape and (a.size == 0 or float(np.abs(a - b).max()) <= ROT_TOL)
+
+
+def same_euler(a, b):
+    """Euler triplets of the same unit quaternion up to re-normalisation rounding (conditioning 1/sin(Phi))"""
+    if abs(np.sin(b[1])) < 1e-4:
+        return abs(a[1] - b[1]) <= 1e-7
+    d = np.abs((np.asarray(a) - np.asarray(b) + np.pi) % (2 * np.pi) - np.pi)
+    return bool(d.max() <= 1e-11 / abs(np.sin(b[1])) + 1e-12)
 
 
 def try_(f):
@@ -143,7 +159,7 @@ def compare_map(c, xm, base, o):
         return "property names differ"
     # rotations by original id
     r = xm.rotations.data
-    if r.shape[0] != len(ids) or not np.array_equal(r, base["rot"].data[ids]):
+    if r.shape[0] != len(ids) or not same_rot(r, base["rot"].data[ids]):
         return f"rotations are not those of the original points {ids}"
     v, e = try_(lambda: int(xm.rotations_per_point))
     if len(ids) and (e is not None or v != c.get("nrot", 1)):
@@ -193,6 +209,12 @@ def compare_map(c, xm, base, o):
     if not o["Gid"].startswith("!"):
         toks = [] if o["Gid"] == "-" else o["Gid"].split(",")
         v, e = try_(lambda: xm.get_map_data("rotations"))
+        if n <= 3:
+            # the code as it is: the RGB/Euler branch assumes more than three original points (see the prop site
+            # and known finding C11-map-data-rotations-small-grid); the correspondence only pins that behaviour
+            if e is None or not e.startswith("ValueError:cannot reshape"):
+                return f"get_map_data('rotations') on a {n}-point grid: {e or 'no exception'} (model of the code expects the reshape error)"
+            return None
         if e is not None:
             return f"get_map_data('rotations') raises {e}"
         if tuple(v.shape) != shp + (3,):
@@ -202,7 +224,7 @@ def compare_map(c, xm, base, o):
             if t == "F":
                 if not np.all(np.isnan(flat[j])):
                     return f"get_map_data('rotations') position {j} should be the fill value"
-            elif not np.array_equal(flat[j], base["euler"][int(t)]):
+            elif not same_euler(flat[j], base["euler"][int(t)]):
                 return f"get_map_data('rotations') position {j} is not the rotation of original point {t}"
         # a boolean attribute
         v, e = try_(lambda: xm.get_map_data("is_indexed", fill_value=False))
@@ -284,6 +306,7 @@ def history_lines(c):
 
 
 def history_check(ctx, c, outs):
+    warnings.simplefilter("ignore")
     res, t = run_history(c, outs[0])
     if res is None:
         return None
@@ -357,7 +380,7 @@ def check_against_ref(c, xm, ref, base, x, y, where):
     for k, v in c["props"].items():
         if [int(a) for a in xm.prop[k]] != [v[p] for p in S]:
             return f"{where}: property {k} not aligned with ids"
-    if not np.array_equal(xm.rotations.data, base["rot"].data[S]):
+    if not same_rot(xm.rotations.data, base["rot"].data[S]):
         return f"{where}: rotations not aligned with ids"
     if not S:
         return None
@@ -386,6 +409,21 @@ def check_against_ref(c, xm, ref, base, x, y, where):
                         return f"{where}: get_map_data({item!r})[{r},{cc}] = {a[r, cc]} != {exp[(r, cc)]}"
                 elif not ((a[r, cc] != a[r, cc]) if fill is None else a[r, cc] == fill):
                     return f"{where}: get_map_data({item!r})[{r},{cc}] = {a[r, cc]} is not the fill value"
+    # rotations (first one per point) as Euler angles
+    v, e = try_(lambda: xm.get_map_data("rotations"))
+    if e is not None:
+        return f"{where}: get_map_data('rotations') raises {e}"
+    if tuple(v.shape) != shp + (3,):
+        return f"{where}: get_map_data('rotations') shape {v.shape} != {shp + (3,)}"
+    a = v.reshape(H, W, 3)
+    exp = {(r, cc): p for r, cc, p in zip(rows, cols, S)}
+    for r in range(H):
+        for cc in range(W):
+            if (r, cc) in exp:
+                if not same_euler(a[r, cc], base["euler"][exp[(r, cc)]]):
+                    return f"{where}: get_map_data('rotations')[{r},{cc}] is not the rotation of point {exp[(r, cc)]}"
+            elif not np.all(np.isnan(a[r, cc])):
+                return f"{where}: get_map_data('rotations')[{r},{cc}] is not the fill value"
     return None
 
 
@@ -422,6 +460,7 @@ def setsem_run(c):
 
 
 def setsem_check(ctx, c, outs):
+    warnings.simplefilter("ignore")
     res = setsem_run(c)
     if res is not None and len(c["keys"]) > 1:
         full = len(c["keys"])
@@ -496,7 +535,13 @@ SITES = {
 
 # narrow classifiers of failing cases for known_findings.json
 def pred_grid_1x1(case):
-    return case.get("ny") == 1 and case.get("nx") == 1
+    """original grid of one point, and the failure is the crash of row / col / get_map_data"""
+    if not (case.get("ny") == 1 and case.get("nx") == 1):
+        return False
+    with warnings.catch_warnings():
+        warnings.simplefilter("ignore")
+        msg = setsem_run(case) or ""
+    return "degenerate" in msg
 
 
 def pred_item_len3(case):
@@ -509,10 +554,30 @@ def pred_item_len3(case):
             ref = ref.select(k)
     except G.RefError:
         return False
-    return len(ref.S) == 3
+    if len(ref.S) != 3:
+        return False
+    with warnings.catch_warnings():
+        warnings.simplefilter("ignore")
+        msg = item_check(None, case, []) or ""
+    return "array of 3 values" in msg
 
 
-PREDICATES = {"grid_1x1": pred_grid_1x1, "item_len3": pred_item_len3}
+def pred_rotations_small_grid(case):
+    """get_map_data('rotations') on an original grid of at most three points"""
+    if case.get("ny", 9) * case.get("nx", 9) > 3 or pred_grid_1x1(case):
+        return False
+    with warnings.catch_warnings():
+        warnings.simplefilter("ignore")
+        msg = setsem_run(case) or ""
+    return "get_map_data('rotations') raises ValueError:cannot reshape" in msg
+
+
+PREDICATES = {"grid_1x1": pred_grid_1x1, "item_len3": pred_item_len3, "rotations_small_grid": pred_rotations_small_grid}
+
+
+def tally(ctx, stratum):
+    """secondary stratum counter (does not count as an evaluation)"""
+    ctx.strata[stratum] = ctx.strata.get(stratum, 0) + 1
 
 
 def generate(ctx):
@@ -521,7 +586,7 @@ def generate(ctx):
     for L in range(0, 6 if quick else 8):
         ctx.count("slice_kernel", ("sl", L), nontrivial=L > 0)
         yield "slice_kernel", {"L": L}
-    n_hist = 160 if quick else 1500
+    n_hist = 400 if quick else 3000
     forced = ["one", "row", "col", "1d", "thin", "2d"]
     for i in range(n_hist):
         c, strata = G.gen_c11_case(rng, ctx.tier, kind=forced[i] if i < len(forced) else None)
@@ -529,26 +594,26 @@ def generate(ctx):
         nontrivial = len(c["keys"]) >= 2 and c["ny"] * c["nx"] > 1
         ctx.count(f"history/grid={c['kind']}", ("h", c["ny"], c["nx"], c["pid"], c["mask"], G.ints([]), repr(c["keys"])),
                   nontrivial=nontrivial)
-        ctx.count(f"history/geom={c['geom']}", None)
-        ctx.count(f"history/len={min(len(c['keys']), 12)}", None)
+        tally(ctx, f"history/geom={c['geom']}")
+        tally(ctx, f"history/len={min(len(c['keys']), 12)}")
         for st in set(strata):
-            ctx.count("key/" + st, None)
+            tally(ctx, "key/" + st)
         for a, b in zip(seq, seq[1:]):
-            ctx.count(f"pair/{a}-then-{b}", None)
+            tally(ctx, f"pair/{a}-then-{b}")
         if not all(c["mask"]):
-            ctx.count("history/initial-mask", None)
+            tally(ctx, "history/initial-mask")
         if c.get("nrot", 1) > 1:
-            ctx.count("history/several-rotations-per-point", None)
+            tally(ctx, "history/several-rotations-per-point")
         if i % 40 == 0:
             ctx.sample({"site": "history", **c})
         yield "history", c
         c2 = copy.deepcopy(c)
         yield "set_semantics", c2
-        if i % 2 == 0:
+        if i % 2 == 0 and c["ny"] * c["nx"] > 1:
             yield "geometry", copy.deepcopy(c)
-    n_item = 60 if quick else 500
+    n_item = 150 if quick else 1000
     for i in range(n_item):
-        c, _ = G.gen_c11_case(rng, ctx.tier, length=int(rng.integers(0, 3)))
+        c, _ = G.gen_c11_case(rng, ctx.tier, kind=["2d", "row", "col", "thin"][i % 4], length=int(rng.integers(0, 3)))
         c["item"] = [int(v) for v in rng.integers(0, 40, c["ny"] * c["nx"])]
         c["item_dtype"] = ["int", "float"][i % 2]
         ctx.count("map_data_item", ("it", c["ny"], c["nx"], c["mask"], repr(c["keys"]), c["item"]))
